@@ -14,6 +14,9 @@ def _node():
         target = Parameter('t', FloatRange(0, 10), default=1)
         text = Parameter('custom, exported as _text', StringType(), default='', readonly=False)
         fixed = Parameter('constant', IntRange(), constant=7)
+        zero = Parameter('falsy constant, different default', IntRange(), constant=0, default=4)
+        blank = Parameter('falsy constant, different default', StringType(), constant='', default='unnamed')
+        off = Parameter('falsy constant', FloatRange(), constant=0.0, default=3.0)
         hidden = Parameter('not exported', FloatRange(), default=0, readonly=False, export=False)
         ro = Parameter('readonly custom', FloatRange(), default=2)
 
@@ -37,13 +40,13 @@ def _node():
     return nodelib.Srv([nodelib.mod('m', Dev), nodelib.mod('n', Readable), nodelib.mod('q', Quiet, export=False)])
 
 
-NAMES = ['value', 'target', 'text', '_text', 'fixed', '_fixed', 'hidden', '_hidden', 'ro', '_ro', 'twice', '_twice', 'secret', '_secret',
+NAMES = ['value', 'target', 'text', '_text', 'fixed', '_fixed', '_zero', '_blank', '_off', 'zero', 'hidden', '_hidden', 'ro', '_ro', 'twice', '_twice', 'secret', '_secret',
          'stop', 'status', 'pollinterval', 'nosuch', '', 'accessibles', 'name', 'True', '_value']
 MODS = ['m', 'n', 'q', 'x', '']
 
 
 def gen_requests(tier, rng):
-    """read / change / do / activate for every (module, name) of 5 module names x 23 accessible names (wire names, attribute names,
+    """read / change / do / activate for every (module, name) of 5 module names x 27 accessible names (wire names, attribute names,
     unexported and unknown ones); the description is taken once from the same node"""
     from bounded import nodelib
     srv = _node()
